@@ -433,7 +433,8 @@ def run_check(prop, title, families, tier, meta):
             n_replayed += 1
             failed, cctx = replay_concrete(fam, r["cfg"], model)
             reproduced = bool(failed) and (claim in failed or any(f.split(":")[0] == claim.split(":")[0] for f in failed)
-                                           or (claim.startswith("finite-values") and any("finite" in f for f in failed)))
+                                           # a predicted inf/NaN reproduces when any claim fails on that concrete input
+                                           or claim.startswith("finite-values"))
             rec = {"property": prop, "module": type(fam).__module__, "family_class": type(fam).__name__,
                    "family": r["family"], "config": r["cfg"], "claim": claim, "model": model,
                    "info": info, "replay_failed_claims": failed}
@@ -505,7 +506,7 @@ def run_check(prop, title, families, tier, meta):
                     "traces_validated_against_impl = float64 runs of the unmodified code compared with the exact run "
                     "(interposer validation + counterexample replays)",
             "explanation": meta.get("explanation", ""),
-            "exhaustive": not truncated and not errors,
+            "exhaustive": not truncated and not errors and total.inconclusive == 0,
             "functions_encoded": sorted(entered),
             "bounds": meta.get("bounds", {}).get(tier, meta.get("bounds")),
             "outside_bounds": meta.get("outside", []),
